@@ -156,4 +156,36 @@ class Malformed(Base):
         return out
 
 
-STREAMS = [Grid(), Random(), Malformed()]
+from .. import e2e_streams as es
+
+
+class Records(es.RecordStream):
+    """every record real end-to-end runs wrote (four output modes, first-pass, second-pass and joined records): the model's cigar_string of
+    the listed pairs must be the HitEnum in the file, and the verified replay checker must accept it"""
+    name = 'e2e_records'
+    prelude = Base.prelude
+
+    def term(self, case, out):
+        ps = clist('(%s,%s)' % (z(r), z(q)) for r, q in case['pairs'])
+        valid = all(a[0] < b[0] and ((a[1] > b[1]) if case['rev'] else (a[1] < b[1])) for a, b in zip(case['pairs'], case['pairs'][1:]))
+        d = (-1 if case['rev'] else 1) if valid else 0          # invalid matchings (open finding F10 of C01): model agreement only
+        return '(%s, %s, %s, %s)' % (z(d), ps, cb(False), cstr(case['hit']))
+
+    def oracle(self, case, out):
+        pairs = [tuple(p) for p in case['pairs']]
+        valid = all(a[0] < b[0] and ((a[1] > b[1]) if case['rev'] else (a[1] < b[1])) for a, b in zip(pairs, pairs[1:]))
+        if not valid or not pairs:
+            return []
+        got = replay_hitenum(case['hit'], pairs[0], -1 if case['rev'] else 1)
+        tag = 'record of query %d on reference %d (mode %s, file %s): ' % (case['q'], case['r'], case['mode'], case['file'])
+        if got is None:
+            return [tag + 'HitEnum %r is not a well-formed run-length string starting and ending with M' % case['hit']]
+        if got != [list(p) for p in pairs]:
+            return [tag + 'replaying HitEnum %r does not reproduce the listed pairs' % case['hit']]
+        return []
+
+    def classify(self, case, out):
+        return es.RecordStream.classify(self, case, out) + [('has_I' if 'I' in case['hit'] else 'no_I'), ('has_D' if 'D' in case['hit'] else 'no_D')]
+
+
+STREAMS = [Grid(), Random(), Malformed(), Records()]
